@@ -280,14 +280,23 @@ fn exec<F: Flavour>(w: &mut World<F>, extras: &mut Vec<F::Node>, op: &TOp) -> Ob
             }
             drop(t);
             let x = &w.nodes[*u];
-            Obs::Text(format!(
+            let first = format!(
                 "after a connected neighbour was dropped: out_degree {} in_degree {} is_orphan {} is_leaf {} is_root {}",
                 F::out_degree(x),
                 F::in_degree(x),
                 F::is_orphan(x),
                 F::is_leaf(x),
                 F::is_root(x)
-            ))
+            );
+            // and the very last thing: asking for the dead neighbour by key. Whether that call
+            // returns at all (the pinned library panics on the dead entry) is part of what a
+            // program observes; a handle to a released node would be worse than either answer.
+            let dead = gen::NO_SUCH_KEY - 2;
+            let last = match caught(|| (F::is_connected(x, dead), F::find_out(x, dead).is_some(), F::find_in(x, dead).is_some())) {
+                Caught::Ok(r) => format!("lookup of the dead neighbour returned {r:?}"),
+                _ => "lookup of the dead neighbour did not return".to_string(),
+            };
+            Obs::Text(format!("{first}; {last}"))
         }
         TOp::DeHandWritten { wire, variant } => {
             use crate::keys::kin;
